@@ -188,7 +188,7 @@ pub fn run(out: &mut Out, tier: &str, seed: u64) {
     // random raw terms (mostly ill-typed: every arm of `step`, including the stuck ones)
     let n_random = if tier == "thorough" { 100000 } else { 8000 };
     for k in 0..n_random {
-        let g = TermGen { holes: k % 4 == 3, max_var: 1, big_lits: true };
+        let g = TermGen { holes: k % 4 == 3, max_var: 1, big_lits: true, closed: false };
         let t = { let b = 2 + rng.below(30); g.make(&mut rng, b, 0) };
         check_term(out, &mut ser, &t, 200);
     }
